@@ -23,6 +23,13 @@ DETECT_NAMES = ['utf-8', 'utf-8-sig', 'utf-16', 'utf-16-le', 'utf-16-be', 'utf-3
 PROBE = b'\xc3\xa4'          # valid UTF-8 and a different text in every encoding of POOL
 PROBE_BAD = b'\xe4'          # not UTF-8; a different character in every single-byte encoding of SB
 PREFIX = '@charset "'
+# BOM x first character: the detector looks at the first four bytes, i.e. also at the character after a 2/3-byte BOM;
+# the first characters put 00 / FF / FE / '@' / other into every byte position of both byte orders
+BOMS = [('utf-8', codecs.BOM_UTF8), ('utf-16-le', codecs.BOM_UTF16_LE), ('utf-16-be', codecs.BOM_UTF16_BE),
+        ('utf-32-le', codecs.BOM_UTF32_LE), ('utf-32-be', codecs.BOM_UTF32_BE)]
+BOM_OF = dict(BOMS)
+FIRSTS = ['a', '\xe4', '\xff', '\xfe', '\u0100', '\u4e00', '\uff00', '\ufe00', '\u4000', '\u6300', '\U00010000', '\U00010400',
+          '\uffff']
 
 assert len({PROBE.decode(e) for e in POOL}) == len(POOL)
 assert len({PROBE_BAD.decode(e) for e in SB}) == len(SB)
@@ -188,6 +195,13 @@ def readurl_table(rng, rounds):
                         yield ReadCase(ov, http, par, (http, c), 'text:' + tag, [n_cs])
                     # a list instead of a tuple unpacks just as well
                     yield ReadCase(ov, http, par, [http, cs + body], 'list:charset', [n_cs])
+        # every BOM followed by every kind of first character (and '@', which the detector also looks for)
+        for ov, http, par in ((None, None, None), (None, None, n_par), (None, '', ''), (None, n_http, n_par), (n_ov, None, None)):
+            for codec, bom in BOMS:
+                for first in FIRSTS + ['@', '\x00']:
+                    c = bom + (first + '{content:"\xe4"}').encode(codec, 'surrogatepass')
+                    yield ReadCase(ov, http, par, (http, c), 'bytes:bom:%s:U+%04X' % (codec, ord(first)))
+                yield ReadCase(ov, http, par, (http, bom), 'bytes:bom-only:%s' % codec)
 
 
 # ---------------------------------------------------------------------------------------------------
@@ -195,11 +209,15 @@ def readurl_table(rng, rounds):
 class Node:
     """description of what one URL serves"""
     def __init__(self, url, shape='data', http=None, as_text=False, charset=None, lead='', imports=(),
-                 import_style=(), late=None, probe='good'):
+                 import_style=(), late=None, probe='good', bom=None):
         self.url, self.shape, self.http, self.as_text, self.charset = url, shape, http, as_text, charset
         self.lead, self.imports, self.import_style, self.late, self.probe = lead, list(imports), list(import_style), late, probe
+        self.bom = list(bom) if bom else None     # [codec, first character]: a leaf `BOM first{content:"ä"}` in that codec
 
     def render(self):
+        if self.bom:
+            codec, first = self.bom
+            return BOM_OF[codec] + (first + '{content:"\xe4"}').encode(codec)
         parts = []
         if self.lead == 'ws':
             parts.append(' ')
@@ -269,7 +287,7 @@ class TreeCase:
     def from_json(d):
         def mk(x):
             return Node(x['url'], x['shape'], x['http'], x['as_text'], x['charset'], x['lead'], x['imports'],
-                        x['import_style'], x['late'], x['probe'])
+                        x['import_style'], x['late'], x['probe'], x.get('bom'))
         return TreeCase(d['mode'], d['override'], d['href'], mk(d['root']), [mk(x) for x in d['nodes']])
 
 
@@ -299,6 +317,22 @@ def fixed_trees():
                         [Node(url(1), lead='comment', imports=[url(2)], http=K), Node(url(2), probe='bad')]))
     out.append(TreeCase('ps', None, None, Node(ROOT, charset=L, imports=[url(1)]),
                         [Node(url(1), shape='nocontent', http=K)]))
+    return out
+
+
+def bom_trees():
+    """every BOM x every kind of first character, as the top-level sheet and as an import at depth 1 and 2, below a
+    referring sheet without / with an encoding of its own"""
+    out = []
+    for codec, _ in BOMS:
+        for first in FIRSTS[:-1]:
+            leaf = dict(bom=(codec, first))
+            out.append(TreeCase('ps', None, ROOT, Node(ROOT, **leaf), []))
+            for parent in (None, 'iso-8859-1', 'KOI8-R'):
+                out.append(TreeCase('ps', None, ROOT, Node(ROOT, as_text=True, charset=parent, imports=[url(1)], probe='none'),
+                                    [Node(url(1), **leaf)]))
+            out.append(TreeCase('pu', None, ROOT, Node(ROOT, http='cp1251', imports=[url(1)]),
+                                [Node(url(1), imports=[url(2)], probe='bad'), Node(url(2), **leaf)]))
     return out
 
 
@@ -360,6 +394,13 @@ def gen_tree(rng):
         elif x < 0.40:
             n.late = rng.choice(urls + ['http://h/missing0.css'])
         n.import_style = [rng.randrange(5) for _ in n.imports]
+    # some leaves are sheets with a BOM (only where the BOM is what decides: no override, no HTTP charset)
+    if not override:
+        for u, n in nodes.items():
+            if not n.imports and not n.late and not n.http and n.shape == 'data' and rng.random() < 0.3 \
+                    and not (u == ROOT and mode == 'pu'):
+                n.bom = [rng.choice(BOMS)[0], rng.choice(FIRSTS[:-1])]
+                n.as_text, n.charset, n.lead, n.probe = False, None, '', 'good'
     href = ROOT if (mode == 'pu' or rng.random() < 0.85) else None
     if href is None:
         # without a root href nothing equals the root for the recursion guard; do not import ROOT then
@@ -510,13 +551,23 @@ def spec_tree_violations(c, res):
         if root_found and not same_codec(sheet.encoding, root_found):
             out.append({'clause': 'a sheet loaded by URL reports the encoding it was read in',
                         'detail': {'reported': sheet.encoding, 'read_in': root_found}})
+    def selectors(s):
+        return [x.selectorText for x in s.cssRules if x.type == x.STYLE_RULE]
+
+    # a top-level sheet given as bytes that starts with a BOM: the BOM decides, the first character is the selector
+    if c.mode == 'ps' and c.rootnode.bom and not ov and c.rootnode.bom[1] not in selectors(sheet):
+        out.append({'clause': 'a BOM in the content decides the encoding of the sheet, whatever character follows it',
+                    'detail': {'bom': c.rootnode.bom[0], 'first': c.rootnode.bom[1], 'selectors': selectors(sheet)}})
     # walk records with their parents
     stack = {0: sheet}
+    urls = {0: c.href}
     for r in res['recs']:
         parent = stack[r['depth'] - 1]
         node = c.nodes.get(r['url'])
+        recursive = r['url'] in [urls.get(d) for d in range(r['depth'])]
         if r['found']:
             stack[r['depth']] = r['sheet']
+            urls[r['depth']] = r['url']
         if node is None or node.shape != 'data':
             if r['found']:
                 out.append({'clause': 'an import that cannot be fetched is not loaded', 'detail': {'url': r['url']}})
@@ -535,7 +586,22 @@ def spec_tree_violations(c, res):
         else:
             want = 'utf-8'
         if not r['found']:
-            # legitimate reasons: recursion, undecodable
+            # legitimate reasons: recursion, content that does not decode in the encoding the ladder gives
+            decodable = True
+            if isinstance(content, bytes):
+                try:
+                    content.decode(want)
+                except (UnicodeDecodeError, LookupError):
+                    decodable = False
+            if decodable and not recursive:
+                out.append({'clause': 'an imported sheet whose content decodes in the encoding the precedence gives is loaded',
+                            'detail': {'url': r['url'], 'depth': r['depth'], 'spec': want}})
+            continue
+        if node.bom and not ov and node.bom[1] not in selectors(r['sheet']):
+            out.append({'clause': 'a BOM in the content decides the encoding of an imported sheet, whatever character '
+                                  'follows it',
+                        'detail': {'url': r['url'], 'bom': node.bom[0], 'first': node.bom[1],
+                                   'selectors': selectors(r['sheet']), 'used': r['used']}})
             continue
         if not same_codec(r['used'], want):
             out.append({'clause': 'an imported sheet is decoded with the first applicable of override / HTTP / '
@@ -559,7 +625,7 @@ def spec_tree_violations(c, res):
         try:
             st = r['sheet'].cssText.decode(r['reported'])
             if node.probe != 'none':
-                probe = '\xe4' if node.as_text else (PROBE if node.probe == 'good' else PROBE_BAD).decode(want)
+                probe = '\xe4' if (node.as_text or node.bom) else (PROBE if node.probe == 'good' else PROBE_BAD).decode(want)
                 s2 = __import__('cssutils').parseString(st)
                 vals = [x.style.getPropertyValue('content') for x in s2.cssRules if x.type == x.STYLE_RULE]
                 if '"%s"' % probe not in vals:
